@@ -284,7 +284,46 @@ def run(ctx):
                 req3.append("conflict|%d|%s" % (1 if enable_loop else 0, enc(name)))
                 got3.append(({"name": name, "enable_loop": enable_loop, "entry": entry}, res if res in "01" else res))
 
+    # ---- _Identifiers: every scope of generated templates, real class vs model ------------------------------------
+    from harness import c04_idents
+    from mako.template import Template as _T
+    req4, got4 = [], []
+    nid = 150 if tier == "quick" else 5000
+    for _ in range(nid):
+        src = c04_idents.gen_template(rng)
+        ctx.evaluations += 1
+        ctx.nontrivial.add(src)
+        try:
+            t = _T(src)
+        except Exception:  # noqa
+            continue          # named block in a def etc.: rejected at compile time
+        try:
+            cases = list(c04_idents.cases_of(src))
+        except Exception as e:  # noqa
+            ctx.broke("correspondence:harness/c04_idents.py", "could not branch the real _Identifiers: %r on %r" % (e, src))
+            continue
+        for what, line, real, nm_ in cases:
+            req4.append(line)
+            anon = {v for k_, v in nm_.ix.items() if k_ is None or (isinstance(k_, str) and k_.startswith("__M_anon_"))}
+            got4.append(({"template": src, "scope": what}, real, anon))
+        # the names hoisted at the top of render_body are those the body scope says are to be written
+        nm_ = cases[0][3]
+        rev = {v: k_ for k_, v in nm_.ix.items()}
+        want_h = {rev[x] for x in cases[0][2][7]} - {"loop"}
+        have_h = c04_idents.hoisted_in_render_body(t.code) - {"loop"}
+        if want_h != have_h:
+            ctx.violation({"template": src, "hoisted_in_module": sorted(have_h), "to_write_of_the_body_scope": sorted(want_h)},
+                          "the names given a line at the top of render_body are not the body scope's to_write", tags=["c04.hoisted"])
+    ctx.generators["identifier_scopes"] = {"templates": nid, "scopes": len(req4)}
+
     if model_ok:
+        for g, m in zip(got4, common.run_driver(PROP, req4)):
+            try:
+                ms = c04_idents.model_sets(m, g[2])
+            except Exception:  # noqa
+                ms = m
+            if ms != g[1]:
+                disagreements.append(("_Identifiers", g[0], repr(ms)[:500], repr(g[1])[:500]))
         for g, m in zip(got, common.run_driver(PROP, req)):
             if m != g[1]:
                 disagreements.append(("resolve", g[0], m, g[1]))
